@@ -379,3 +379,51 @@ def one_child_compound(v) -> bool:
 
     u = unwrap(m)
     return found[0] > 0 and nf_defect(u) is None
+
+
+@predicate
+def post_release_bound_in_marker(v) -> bool:
+    """F8 acting through the marker layer: merging `python_full_version >= lo` with
+    `python_full_version < X.postN` yields the range [lo, X.postN), which from_specifier renders
+    through the pinned `~=lo` shortcut and thereby drops [X, X.postN).  Explained iff an atom of
+    the operands / text has an exclusive upper bound that is a post-release AND the environment
+    value lies in that dropped slice AND the result wrongly evaluates False there."""
+    from packaging.version import InvalidVersion, Version
+
+    from . import altsem
+    from .workloads.markers import walk_atoms
+
+    live = v.get("_live") or {}
+    env = live.get("env")
+    if env is None:
+        return False
+    d = v["detail"]
+    got = d.get("got")
+    exp = d.get("expected", d.get("packaging"))
+    if not (got is False and exp is True):
+        return False
+    atoms = []
+    for o in (live.get("operands") or []):
+        atoms += walk_atoms(o)
+    if "text" in live:
+        from dep_logic.markers import _build_markers
+        from packaging.markers import Marker
+
+        def collect(ms):
+            for it in ms:
+                if isinstance(it, list):
+                    collect(it)
+                elif isinstance(it, tuple):
+                    atoms.append(_build_markers(it))
+        collect(Marker(live["text"])._markers)
+    for a in atoms:
+        if getattr(a, "name", None) not in altsem.VERSION_VARS or getattr(a, "op", None) != "<":
+            continue
+        try:
+            x = Version(a.value)
+            val = Version(str(env[a.name]))
+        except (InvalidVersion, KeyError):
+            continue
+        if x.post is not None and x.dev is None and _release_only(x) <= val < x:
+            return True
+    return False
